@@ -2,9 +2,9 @@ INIT Init
 NEXT Next
 CONSTANTS
   MaxOwn = 2
-  MaxScen = 3
-  OtherModes = {"none"}
-  EmitMod = 41
+  MaxScen = 2
+  OtherModes = {"before", "after"}
+  EmitMod = 31
 INVARIANT ClausesHold
 INVARIANT RepairedHolds
 INVARIANT KFNarrow
